@@ -139,8 +139,8 @@ def selftest(jobs, meta, bad, stats):
                     if ev["k"] != "trace":
                         continue
                     g = got.get((ev["tix"], ev["what"]), set())
-                    if ev["expect"] == "" and g and jobs[jix]["fam"] == "str":
-                        raise C.MachineryError(f"validator self-test: genuine recording rejected {g}")
+                    # (a genuine recording that TLC rejects is not a machinery matter: the same history is part of the
+                    #  replay set and is reported there as a known finding or a violation)
                     if ev["expect"] and ev["expect"] not in g:
                         raise C.MachineryError(f"validator self-test: corrupted recording ({ev['what']}) not rejected "
                                                f"with '{ev['expect']}' (got {sorted(g)})")
